@@ -17,16 +17,43 @@ def sets_prepare(settype, newset, elem, toelem, tag):
 
 
 PROPS = {}
+LEAN = os.path.join(os.path.dirname(os.path.dirname(os.path.abspath(__file__))), "lean")
+
+
+def auto_theorems(modules):
+    """fully qualified names of the theorems stated in the given property modules"""
+    import re
+    out = []
+    for m in modules:
+        path = os.path.join(LEAN, m.replace(".", "/") + ".lean")
+        if not os.path.exists(path):
+            continue
+        ns = []
+        depth = 0
+        for line in open(path):
+            if "/-" in line and "-/" not in line.split("/-", 1)[1]:
+                depth += 1
+                continue
+            if depth:
+                if "-/" in line:
+                    depth -= 1
+                continue
+            mm = re.match(r"^namespace\s+(\S+)", line)
+            if mm:
+                ns.append(mm.group(1))
+                continue
+            mm = re.match(r"^end\s+(\S+)", line)
+            if mm and ns and ns[-1] == mm.group(1):
+                ns.pop()
+                continue
+            mm = re.match(r"^(?:open .* in\s+)?theorem\s+(\S+)", line)
+            if mm:
+                out.append(".".join(ns + [mm.group(1)]))
+    return out
 
 PROPS["C20"] = dict(
     lean_modules=["LC.Props.C20Heap", "LC.Props.C20Sets"],
-    audit_module="LC.Props.C20",
-    theorems=["LC.Heap.reachable_inv", "LC.Heap.push_spec", "LC.Heap.pop_isSome", "LC.Heap.pop_spec",
-              "LC.Heap.remove_spec", "LC.Heap.setFix_spec",
-              "LC.Sets.new_spec", "LC.Sets.insert_spec", "LC.Sets.delete_spec", "LC.Sets.copy_spec",
-              "LC.Sets.intersect_spec", "LC.Sets.disjoint_spec", "LC.Sets.difference_spec",
-              "LC.Sets.unique_spec", "LC.Sets.equal_spec", "LC.Sets.equal_nil", "LC.Sets.union_spec",
-              "LC.Sets.contains_spec", "LC.Sets.len_spec", "LC.Sets.elements_spec", "LC.Sets.order_irrelevant"],
+    theorems=auto_theorems(["LC.Props.C20Heap", "LC.Props.C20Sets"]),
     runs=[
         dict(mod="root", pkg="stringclassifier/internal/pq", pkgname="pq",
              files=["overlay/pq/zz_verif_test.go"], run="^TestVerifC20$"),
@@ -48,6 +75,7 @@ PROPS["C20"] = dict(
 )
 
 V2FILES = ["overlay/v2/common_test.go", "overlay/v2/tok_test.go", "overlay/v2/match_test.go", "overlay/v2/props_test.go"]
+ALLGEN = ["unicode", "v2tables", "html"]
 
 
 def v2run(test, **kw):
@@ -56,70 +84,248 @@ def v2run(test, **kw):
     return d
 
 
+def rootrun(pkg, pkgname, harness, test, **kw):
+    d = dict(mod="root", pkg=pkg, pkgname=pkgname, files=[harness], run=f"^{test}$", timeout=900, timeout_thorough=7000)
+    d.update(kw)
+    return d
+
+
+def build_cli():
+    """C19: build the identify_license binary from /repo's current working tree"""
+    import vlib
+    os.makedirs(os.path.join(vlib.WORK, "bin"), exist_ok=True)
+    out = os.path.join(vlib.WORK, "bin", "identify_license")
+    if os.path.exists(out):
+        os.remove(out)
+    rc, o, _ = vlib.sh(["go", "build", "-modfile", vlib.modfile("v2"), "-o", out, "./tools/identify_license"],
+                       cwd=vlib.MODS["v2"], env=vlib.go_env(), timeout=600)
+    if rc != 0:
+        raise RuntimeError("go build identify_license failed: " + o[-500:])
+    return {"VERIF_CLI_BIN": out}
+
+
 TOK = v2run("TestVerifTok")
 MATCH = v2run("TestVerifMatch")
+PATH = v2run("TestVerifPath")
 V2_TB = ["hand-written Lean model of the v2 pipeline (LC/Model/V2Tok, V2Env, V2Match, Score, Utf8, HtmlUnescape) tied to "
          "the Go code by differential correspondence on every run: stage `tok` (bytes -> tokens/lines/copyright lines, "
-         "incl. the 1024-byte read loop) and stage `match` (tokens -> Results, bit-identical confidences)",
+         "incl. the 1024-byte read loop), stage `norm` (Normalize output) and stage `match` (tokens -> Results, "
+         "bit-identical confidences)",
          "regenerated tables LC/Gen (Unicode classes and ToLower of the Go toolchain in use, punctuationMappings, "
-         "interchangeableWords, listMarker, ignorableTexts sources, inducedPhrases, buffer constants, HTML entities)",
+         "interchangeableWords, listMarker, ignorableTexts sources, inducedPhrases, comparator field orders, buffer "
+         "constants, HTML entities)",
          "go-diff DiffMainRunes is an oracle parameter (its observed script is recorded and fed to the model); "
          "regexp is replaced by hand-written matchers for the three ignorableTexts expressions (validated differentially)"]
+FLOAT = "float64 enters through NumEnv (each float expression of the code is one field); theorems use only the named laws"
 
-PROPS["C02"] = dict(
-    lean_modules=["LC.Props.C02"],
-    regen=["unicode", "v2tables", "html"],
-    theorems=["LC.Score.lev_le_levWord", "LC.Score.score_bound", "LC.Score.lev_eq_zero_iff",
-              "LC.Score.conf_one_only_if_identical"],
-    runs=[MATCH],
-    rule="real Match on exact / edited (word deletions, substitutions, insertions at 2-30%) / truncated / multi-license "
-         "inputs, scenario files and malformed text over the full embedded corpus; oracle: independent two-row DP "
-         "Levenshtein over the white-box token ids, Confidence <= 1 - L/|K|, lines = lines of first/last word. "
-         "distinct = distinct input bytes; non-trivial = at least one match reported",
-    trusted_base=V2_TB,
-    assumptions=["DiffSpec.valid: the script returned by go-diff reproduces both texts with non-empty segments "
-                 "(hypothesis `Valid` of score_bound; every recorded script is replayed through the model, so an invalid "
-                 "one shows as a correspondence mismatch)",
-                 "float64: 1 - d/k is antitone in d (confidence is computed from the integer distance by one IEEE expression)",
-                 "dictionary size < 0xD800 (token ids are cast to runes inside go-diff)"],
-    level_text="lev_le_levWord / score_bound prove, for EVERY valid edit script, that the distance the code uses for the "
-               "confidence is an upper bound of the true word-level Levenshtein distance between the reported span and the "
-               "known text; the code's computation of that distance, of the span offsets and of the confidence is tied to "
-               "the model by the `match` correspondence (bit-identical Results) on every run.",
-)
 
-PROPS["C03"] = dict(
-    lean_modules=["LC.Props.C03Lines"],
-    regen=["unicode", "v2tables", "html"],
-    theorems=["LC.V2Tok.token_lines_bounded", "LC.V2Tok.copyright_lines_bounded", "LC.V2Tok.token_lines_monotone",
-              "LC.V2Tok.totalInputLines_le"],
-    runs=[TOK, MATCH],
-    rule="tokenizer: corpus documents, scenario files, malformed stream (invalid UTF-8, entity soup, hyphen/newline "
-         "storms), buffer-alignment stream; Match: as C02. Oracle: every inequality of the property evaluated on the "
-         "real result. distinct = distinct input; non-trivial = more than 3 tokens / at least one match",
-    trusted_base=V2_TB,
-    assumptions=["thresholds in (0,1]; corpus keys without path separator"],
-    level_text="The line clause is proved for every rune sequence and every environment (token_lines_bounded, "
-               "copyright_lines_bounded, token_lines_monotone, totalInputLines_le); well-formedness of the assembled "
-               "matches rests on the `match` correspondence plus direct evaluation of the property's inequalities.",
-)
+def P(pid, modules, runs, rule, level_text, assumptions, regen=None, trusted=None, **kw):
+    PROPS[pid] = dict(lean_modules=modules, theorems=auto_theorems(modules), runs=runs, rule=rule,
+                      level_text=level_text, assumptions=assumptions, regen=regen or [], trusted_base=trusted or V2_TB, **kw)
 
-PROPS["C08"] = dict(
-    lean_modules=["LC.Props.C08"],
-    regen=["unicode", "v2tables", "html"],
-    theorems=["LC.V2Tok.decodeRune_width", "LC.V2Tok.decodeRune_local", "LC.V2Tok.feed_eq_decodeAll",
-              "LC.V2Tok.feed_pad", "LC.V2Tok.stableTail_of_ascii_end", "LC.V2Tok.feedR_spec"],
-    runs=[TOK, v2run("TestVerifC08")],
-    rule="MatchFrom through readers that fragment (1 byte, mixed sizes, data delivered with EOF) vs Match on the bytes; "
-         "leading-space pads that move multi-byte characters across the 1024-byte buffer boundaries (thorough: every pad "
-         "0..2056); readers failing with three different errors (incl. io.ErrUnexpectedEOF) at sampled/every offset. "
-         "distinct = distinct (input, fragmentation|pad|fault offset); non-trivial = the unpadded input has matches",
-    trusted_base=V2_TB + ["io.ReadFull contract (fills the buffer or reports why not) — the model's reader delivers the "
-                          "bytes and then its terminal error"],
-    assumptions=["StableTail: the input does not END inside a multi-byte UTF-8 sequence (then the Go decoder can see "
-                 "stale buffer bytes beyond the end of input; see DESIGN §6 C08)"],
-    level_text="feed_eq_decodeAll proves, for inputs of every length, that the buffered read loop (as modelled with its "
-               "exact constants, carry-over and stale bytes) hands the scanner the same runes as decoding the whole input; "
-               "feed_pad is the pad clause; feedR_spec the fault clause. The loop model is tied to Go by the `tok` "
-               "correspondence incl. an alignment stream around bytes 1016-1028 and 2040-2052.",
-)
+
+P("C01", ["LC.Props.C01"], [MATCH, v2run("TestVerifC01")],
+  "every picked corpus document planted (verbatim) between out-of-vocabulary lines, 1-4 copies per input, thresholds "
+  "0.8 (quick; +0.9 on even seeds) / 0.7,0.75,0.8,0.9,0.95,1.0 (thorough, all 431 documents), plus user-added synthetic "
+  "documents; expected name/span/lines from the white-box tokenisation of the prefix, never from Match. distinct = "
+  "(threshold, documents); non-trivial = at least one planted copy of >= q tokens was checked",
+  "PARTIAL proof: prefilter_contains, hashes_contains, score_exact(_conf) are proved for all documents/contexts; that "
+  "join/run/fuse propose exactly the planted range and that no other document dominates it in the overlap filter is NOT "
+  "proved — it is established by the oracle on the real Match over every corpus document (thorough) and tied to the model by "
+  "the `match` correspondence.",
+  ["DiffSpec.equalInputs (go-diff returns one Equal segment for identical texts)", FLOAT,
+   "NoDominator: no other corpus document approximately spans several planted copies (the oracle would show it)"], regen=ALLGEN)
+
+P("C02", ["LC.Props.C02"], [MATCH],
+  "real Match on exact / edited (word deletions, substitutions, insertions at 2-30%) / truncated / multi-license inputs, "
+  "scenario files and malformed text over the full embedded corpus; oracle: independent two-row DP Levenshtein over the "
+  "white-box token ids, Confidence <= 1 - L/|K|, lines = lines of first/last word. distinct = distinct input bytes; "
+  "non-trivial = at least one match reported",
+  "lev_le_levWord / score_bound prove, for EVERY valid edit script, that the distance the code uses for the confidence is an "
+  "upper bound of the true word-level Levenshtein distance between the reported span and the known text; the code's "
+  "computation of that distance, of the span offsets and of the confidence is tied to the model by the `match` "
+  "correspondence (bit-identical Results) on every run.",
+  ["DiffSpec.valid: the script returned by go-diff reproduces both texts with non-empty segments (hypothesis `Valid`; every "
+   "recorded script is replayed through the model, an invalid one shows as a correspondence mismatch)",
+   "float64: 1 - d/k is antitone in d", "dictionary size < 0xD800 (token ids are cast to runes inside go-diff)"], regen=ALLGEN)
+
+P("C03", ["LC.Props.C03Lines", "LC.Props.C03WF"], [TOK, MATCH],
+  "tokenizer: corpus documents, scenario files, malformed stream (invalid UTF-8, entity soup, hyphen/newline storms), "
+  "buffer-alignment stream; Match: as C02. Oracle: every inequality of the property evaluated on the real result. distinct = "
+  "distinct input; non-trivial = more than 3 tokens / at least one match",
+  "The line clause is proved for every rune sequence and every environment (token_lines_bounded, copyright_lines_bounded, "
+  "token_lines_monotone, totalInputLines_le); match_wellformed / match_sorted / match_total_lines prove the well-formedness "
+  "and ordering of every result of the model for every input, corpus, NumEnv and diff oracle.",
+  ["thresholds in (0,1]; corpus keys without path separator", FLOAT + " (NumLaws: > on confidences is a strict total order, no NaN)"],
+  regen=ALLGEN)
+
+P("C04", ["LC.Props.C04"], [MATCH, v2run("TestVerifC04", xproc=True)],
+  "call histories on the real classifier: each input matched repeatedly with other Match/MatchFrom/Normalize calls in "
+  "between, against a separately built instance with reversed insertion order, a superset corpus, tracing enabled; caller "
+  "slices compared before/after; the same inputs matched in a second process (different map seed) and compared. Always "
+  "includes the corpus documents that are textually identical to another one. distinct = input; non-trivial = has matches",
+  "sort_order_irrelevant / sorted_perm_unique: a sort under a strict total order has one result per multiset; matchLess_total: "
+  "the (repaired) comparator is such an order; match_order_independent: the model's result is the same for every iteration "
+  "order of the corpus map; dict_roundtrip: ids and words stay in bijection. The comparator field orders the model mirrors are "
+  "regenerated from the AST and compared (matchLess_fields_current, mrLess_fields_current).",
+  [FLOAT, "key uniqueness of joined ranges (hypothesis hk of mr_sort_order_irrelevant)",
+   "tracing and slice aliasing are run-time facts covered by the harness only"], regen=ALLGEN)
+
+P("C05", ["LC.Props.C05"], [TOK, v2run("TestVerifC05")],
+  "metamorphic: real Match before/after each presentation transform (upper/random ASCII case, indentation, trailing blanks, "
+  "CRLF, tabs, double spaces, blank lines, comment prefixes, Unicode hyphens/quotes) on corpus documents alone / planted / "
+  "edited and scenario files; inputs with a hyphen before a line break are exempt as the property says. distinct = "
+  "(transform, input); non-trivial = the untransformed input has matches",
+  "step_congr/tokenize_congr (equal scan signatures are interchangeable), skip_inert/insert_inert, crlf_equiv, "
+  "tokenize_from_clean/blank_line_shift hold for every environment; ascii_case_sig, dash_sig, blank_sig, "
+  "decoration_not_starter, goEnv_wf discharge the table facts on the regenerated Unicode/punctuation tables by kernel evaluation.",
+  ["quotes: typographic quotes are covered by the oracle only (they pass through the entity decoder and the notice regexes)"],
+  regen=ALLGEN)
+
+P("C06", ["LC.Props.C06"], [TOK, v2run("TestVerifC06")],
+  "metamorphic: copyright/date lines inserted between lines, list markers (1., iv., a., 3.1., b:) and letter-paren markers "
+  "(a)) prefixed, words split by hyphen+newline, listed spelling variants swapped, http/https switched; plus: an inserted "
+  "notice must be reported on its line. distinct = (transform, input); non-trivial = input has matches",
+  "PARTIAL: notice_line, marker_dropped/header_iff, hyphen_join_word, interchangeable_same_token, https_http/replaceHttps_idem "
+  "are proved (tokenizer level, every environment; table facts on the regenerated tables). The property is false of the code "
+  "in three recorded ways (known_findings.json): a) markers, line restart after a hyphen join, notices inside a license span.",
+  ["known findings C06/* are reported as KNOWN-FINDING, any other failure is a violation"], regen=ALLGEN)
+
+P("C07", ["LC.Props.C07"], [TOK, MATCH, v2run("TestVerifC07")],
+  "Match(X) vs Match(prefix+X+suffix) with out-of-vocabulary prefix of 1 and 7 lines, X = exact / edited 10% / edited+"
+  "truncated / two-license texts; license matches compared in order with shifted lines and token indices, Copyright "
+  "pseudo-matches as a set of lines. distinct = (X, prefix length); non-trivial = X alone has matches",
+  "PARTIAL: tokens_shift, hashes_shift, match_line_monotone are proved; detectRuns/fuseRanges are NOT shift-equivariant in the "
+  "code (finding C07/negative-offset-clamp), so the full statement is false and not claimed.",
+  ["HashInj is not needed for the proved parts", FLOAT], regen=ALLGEN)
+
+P("C08", ["LC.Props.C08"], [TOK, v2run("TestVerifC08")],
+  "MatchFrom through readers that fragment (1 byte, mixed sizes, data delivered with EOF) vs Match on the bytes; leading-space "
+  "pads that move multi-byte characters across the 1024-byte buffer boundaries (thorough: every pad 0..2056); readers failing "
+  "with three different errors (incl. io.ErrUnexpectedEOF) at sampled/every offset. distinct = (input, fragmentation|pad|fault "
+  "offset); non-trivial = the unpadded input has matches",
+  "feed_eq_decodeAll proves, for inputs of every length, that the buffered read loop (exact constants, carry-over, stale bytes) "
+  "hands the scanner the runes of the whole input; feed_pad is the pad clause; feedR_spec the fault clause. The loop model is "
+  "tied to Go by the `tok` correspondence incl. an alignment stream around bytes 1016-1028 and 2040-2052.",
+  ["StableTail: the input does not END inside a multi-byte UTF-8 sequence", "io.ReadFull contract"], regen=ALLGEN)
+
+P("C09", ["LC.Props.C09"], [MATCH, v2run("TestVerifC09", race=True, timeout=1800)],
+  "8 (quick) / 64 (thorough) goroutines calling Match/MatchFrom on one classifier over exact/edited/scenario inputs under the "
+  "race detector; results compared with sequential results; deep snapshot (tokens, runes incl. spare capacity, checksums, "
+  "dictionary sizes) of the corpus before/after. distinct = verdict kind; non-trivial = all",
+  "PARTIAL: readonly_no_race / readonly_reads_initial prove, for every number of threads and every interleaving, that read-only "
+  "sharing is race free and every read sees the initial state; that Match's footprint on the corpus IS read-only (incl. inside "
+  "go-diff) is monitored, not proved: snapshot + race detector on executed schedules. The Go memory model is outside the model.",
+  ["the code's footprint on shared state is read-only (monitored)", "race detector sees executed schedules only"], regen=ALLGEN)
+
+P("C10", ["LC.Props.C03WF", "LC.Props.C08"], [TOK, MATCH, v2run("TestVerifC10")],
+  "Match, MatchFrom, Normalize, AddContent on the malformed stream and on structure-aware mutations of license texts, for "
+  "thresholds {0,1e-9,0.5,0.8,1-1e-9,1}, classifiers with empty corpus / empty and wordless documents / full corpus, with a "
+  "120 s hang detector. distinct = (classifier, input); non-trivial = non-empty input",
+  "match_no_panic: the model of the pipeline never reaches one of its explicit panic results (filter[off], Tokens[i]) for ANY "
+  "tokens, corpus, NumEnv and diff scripts; the tokenizer model and the read loop are total functions (structural/fuel, "
+  "feed_eq_decodeAll shows the fuel suffices); the correspondence on the malformed stream ties them to the code.",
+  ["regexp, html, go-diff and utf8 are assumed total", "empty-token-list guard as repaired"], regen=ALLGEN)
+
+P("C11", ["LC.Props.C11", "LC.Props.C06"], [TOK, v2run("TestVerifC11")],
+  "Normalize vs Match on corpus documents (thorough: all), plantings, edited texts, scenario files: (a) line k of the output "
+  "holds the words Match attributes to line k (modulo first-letter case and interchangeable spelling); (b) "
+  "Match(Normalize(in)) = Match(in) on non-Copyright matches. distinct = input; non-trivial = input has matches / > 3 tokens",
+  "PARTIAL: render_lines (line k of the output = words of line k) under StepOne and tokenize_stepOne (tokenizer output is "
+  "StepOne when no hyphenated line break is pending) are proved; replaceHttps_idem (C06) is the idempotence the repair relies "
+  "on. Re-matching equality is false for two recorded findings and is checked by the oracle.",
+  ["known findings C11/* are reported as KNOWN-FINDING"], regen=ALLGEN)
+
+P("C12", ["LC.Props.C12"], [PATH, v2run("TestVerifC12")],
+  "real LoadLicenses on generated directory trees (files at depth 1-5, suffixes txt/md/TXT/none, empty files) under five "
+  "spellings of the directory (plain, trailing separator, ./relative, doubled separator, ..); corpus keys and Match results "
+  "compared with an AddContent-built classifier for trees whose .txt files sit at depth 3; LoadLicenses(assets) vs the "
+  "AddContent-built default corpus; stages clean/rel/loadkey compare filepath.Clean/Rel and the key derivation with the model. "
+  "distinct = (tree, spelling); non-trivial = all",
+  "rel_walk / load_key_exact / load_key_shallow / load_key_total prove, for EVERY non-empty spelling of the directory and every "
+  "walked file with ordinary names, that the (repaired) key derivation yields exactly (category, name, variant) at depth 3, "
+  "skips shallower files and never fails; clean_idem. The model of filepath.Clean/Rel is tied to Go by 120k differential cases (thorough).",
+  ["filepath.Walk builds child paths with filepath.Join (modelled)", "equivalence of the loaded classifier = C04 + harness comparison"],
+  regen=ALLGEN)
+
+V1_TB = ["hand-written Lean models LC/Model/V1Tok (Tokenize, TargetRange), LC/Model/V1Glue (exact search, token range, filter "
+         "chains, archive pairing, CLI glue), LC/Model/Conc (interleaving semantics)",
+         "stage v1tok compares the tokenizer model with tokenizer.Tokenize on every run; the other v1 models are decision logic "
+         "checked by the property oracles on the real API"]
+
+P("C13", ["LC.Props.C13", "LC.Props.C17"],
+  [rootrun("stringclassifier", "stringclassifier", "overlay/stringclassifier/zz_verif_test.go", "TestVerifC13"),
+   rootrun("stringclassifier/searchset", "searchset", "overlay/searchset/zz_verif_test.go", "TestVerifC17")],
+  "value sets (1-60 tokens; small/large vocabulary; regex metacharacters, Unicode, invalid UTF-8), none inside another, with "
+  "and without a lower-casing normaliser, thresholds 0.5/0.8/0.9; AddValue must not panic; NearestMatch of each value; a "
+  "verbatim copy planted in filler (start, middle, very end) must be reported with confidence 1.0 and exact Offset/Extent; all "
+  "confidences in (0,1], all ranges inside the normalised unknown. distinct = (value set, unknown); non-trivial = all",
+  "findAll_sound/findAll_first (the literal search returns exactly the occurrences), exact_token_range (the repaired loop "
+  "returns first/last token, single-token values included), nearest_exact; with C17's targetRange_ok the reported byte range "
+  "is exactly the copy.",
+  ["DiffSpec.equalInputs for confidence 1.0", "token-aligned copies (the property's reading, DESIGN §6 C13)"], trusted=V1_TB, regen=["unicode"])
+
+P("C14", ["LC.Props.C14"],
+  [rootrun("stringclassifier", "stringclassifier", "overlay/stringclassifier/zz_verif_test.go", "TestVerifC14", race=True, timeout=1800)],
+  "8/48 goroutines x rounds of concurrent MultipleMatch / NearestMatch / AddValue on a freshly populated classifier (lazy "
+  "search sets still nil) under the race detector, results compared with a sequentially used twin. distinct = round; "
+  "non-trivial = all",
+  "PARTIAL: the skeleton of multipleMatch regenerated from the AST is checked (skeleton_current) to be the locked "
+  "check-and-set shape for which protocol_no_race / protocol_at_most_one_write / protocol_reads_agree (C09 file) hold for every "
+  "number of threads and interleaving; racy_unlocked_check / prefix_skeleton_rejected show the pre-repair shape races. "
+  "Everything outside the skeleton is monitored by the race detector only.",
+  ["Go memory model outside the model; race detector sees executed schedules"], trusted=V1_TB, regen=["v1protocol"])
+
+P("C15", ["LC.Props.C15"],
+  [rootrun("serializer", "serializer", "overlay/serializer/zz_verif_test.go", "TestVerifC15")],
+  "subsets/orderings of the 178 license files (plus non-.txt entries, duplicates, synthetic files through ReadLicenseFile) "
+  "archived with ArchiveLicenses and loaded with New(ArchiveBytes); every archived license must match its own text exactly; "
+  "NearestMatch/MultipleMatch compared with a classifier built by AddValue from the same texts (calls that approach go-diff's "
+  "1 s deadline are skipped and counted). distinct = file subset; non-trivial = all",
+  "parse_build (reading back what ArchiveLicenses writes yields one (name, text, set) per .txt file, in order), "
+  "register_distinct / register_duplicate. tar, gzip and gob are assumed to round-trip.",
+  ["tar/gzip/gob round-trip", "DiffSpec.noDeadline"], trusted=V1_TB)
+
+P("C16", ["LC.Props.C16", "LC.Props.C13"],
+  [rootrun("serializer", "serializer", "overlay/serializer/zz_verif_test.go", "TestVerifC16", timeout=1800, timeout_thorough=14000)],
+  "License.NearestMatch on the shipped license files x presentation variants (plain, upper, lower, re-flowed, wide spaces, // # * "
+  "decoration): canonical name, confidence >= 0.8 (quick: 8 seeded files x 4 variants; thorough: all 178 x 8); MultipleMatch on "
+  "noisy texts never returns a confidence below the threshold. distinct = (file, variant); non-trivial = all",
+  "multiple_within_threshold / multiple_from_input / multiple_nodup prove the threshold clause for every input; nearest_exact "
+  "(C13) the exact-text clause. The first sentence of the property is a finite statement about 178 files and is established by "
+  "ENUMERATION on the real classifier (thorough tier: exhaustive), labelled as such.",
+  ["normaliser outputs are not modelled"], trusted=V1_TB)
+
+P("C17", ["LC.Props.C17"],
+  [rootrun("stringclassifier/searchset", "searchset", "overlay/searchset/zz_verif_test.go", "TestVerifC17")],
+  "Tokenize on generated strings (Unicode, punctuation, invalid UTF-8, random bytes, repetitive low-vocabulary text) compared "
+  "with the model and checked for text/offset/order/coverage; FindPotentialMatches on source/target pairs (target contains / "
+  "edits / is unrelated to the source): every candidate non-empty, ordered, inside the token bounds, TargetRange inside the "
+  "string. distinct = input; non-trivial = more than one token / at least one candidate",
+  "tokenize_faithful, uncovered_is_space, targetRange_ok, encode_decode are proved for EVERY byte string; the stage bounds of "
+  "FindPotentialMatches (untangle/split/merge/coalesce) are established by the oracle on the implementation, not by a theorem.",
+  ["U+FFFD is not punctuation in the Go tables (ValidPunct)"], trusted=V1_TB, regen=["unicode"])
+
+P("C18", ["LC.Props.C18"],
+  [rootrun("commentparser", "commentparser", "overlay/commentparser/zz_verif_test.go", "TestVerifC18")],
+  "all strings up to length 4 (quick) / 5-6 (thorough) over a delimiter-rich alphabet for 21 comment styles, random long "
+  "programs for all language values 0..49, ChunkIterator on random line patterns; every input goes both to the impl-level "
+  "model (tie) and to the SPECIFICATION lexer over the hand-maintained expected syntax (oracle). distinct = (language, input); "
+  "non-trivial = at least one comment",
+  "lex_refines_spec: the model of the Go lexer equals the straightforward specification lexer on EVERY source text for every "
+  "well-formed row; table_current/consts_current/expected_rows_wf/parse_is_spec tie the regenerated language table to the "
+  "expected syntax; chunks_concat/adjacent/maximal/nonempty. Both lexers are total functions (no hang).",
+  ["expected syntax table LC/Spec/LangExpect is hand-maintained (frozen from the reviewed language.go)"],
+  trusted=["Lean model LC/Model/Lexer tied to commentparser.Parse by stage `lex`; specification LC/Spec/LexSpec; regenerated "
+           "language facts LC/Gen/LangTable"], regen=["langtable"])
+
+P("C19", ["LC.Props.C19"],
+  [dict(mod="v2", pkg="tools/identify_license/backend", pkgname="backend", files=["overlay/backend/zz_verif_test.go"],
+        run="^TestVerifC19$", timeout=1800, timeout_thorough=7000, pre=build_cli)],
+  "the identify_license binary built from the working tree, run over generated trees (licensed/unlicensed files, nested "
+  "directories, CRLF, 70 kB lines, no trailing newline, empty files) x -headers x -tasks {1,2,7,1000} x directory/file "
+  "arguments with -json -include_text; stdout lines (as a multiset), exit status and JSON Text compared with in-process "
+  "library results. distinct = (flags, files); non-trivial = at least one match",
+  "results_schedule_independent (the multiset of result lines does not depend on worker order), header_filter, exit_iff, "
+  "readLines_spec / readLines_short. Process, file system and JSON encoding are outside the model.",
+  ["OS process/exit codes, filepath.Walk, encoding/json"], trusted=V1_TB)
